@@ -358,6 +358,25 @@ func run(r *core.Run) int {
 			}
 		}
 	}
+	// the same http URL in other spellings of the scheme (RFC 3986: schemes are
+	// case-insensitive), and with a query: a responder is a responder
+	for _, kind := range []string{"HTTP", "Http", "httpoq"} {
+		for _, o := range vectors(ocspAlpha[:5], 2)[1:] {
+			for _, c := range [][]string{{}, {"clean"}, {"lists"}} {
+				for ei, entry := range []string{"validate", "ocsp", "validate-deprecated"} {
+					sc := &sims.Scenario{Len: 2, CAKind: "p256", Entry: entry, CRLRoute: "http", WithST: (len(o)+ei)%2 == 0}
+					pl := plan(o, c)
+					for j := range pl.Shape.OCSP {
+						if j == 0 || kind != "httpoq" {
+							pl.Shape.OCSP[j] = kind
+						}
+					}
+					sc.Plans = []sims.CertPlan{pl, {}}
+					add(sc)
+				}
+			}
+		}
+	}
 	r.Set("complete_table_cells", len(jobs))
 	// responders that never answer: the client's own (short, real) timeout ends
 	// the OCSP phase, and the CRL phase must still run to completion afterwards
